@@ -371,6 +371,76 @@ func runC05(c *Ctx) {
 }
 
 // C05.4
+// fieldCallsIn lists the calls in g made through a function-typed struct field
+// of the given name.
+func fieldCallsIn(g *ssa.Function, field string) []ssa.CallInstruction {
+	var out []ssa.CallInstruction
+	for _, b := range g.Blocks {
+		for _, in := range b.Instrs {
+			ci, ok := in.(ssa.CallInstruction)
+			if !ok || ci.Common().StaticCallee() != nil || ci.Common().IsInvoke() {
+				continue
+			}
+			if ld, ok := ci.Common().Value.(*ssa.UnOp); ok {
+				if fa, ok := ld.X.(*ssa.FieldAddr); ok && core.FieldObj(fa) != nil && core.FieldObj(fa).Name() == field {
+					out = append(out, ci)
+				}
+			}
+		}
+	}
+	return out
+}
+
+// forwardsFieldCall: g calls the hook stored in the named field (directly, or
+// through another such helper) and every result of the hook that g's
+// signature can carry is returned by g — so that, for the caller, a call of g
+// stands for a call of the hook.
+func forwardsFieldCall(g *ssa.Function, field string, depth int) bool {
+	if g == nil || len(g.Blocks) == 0 || depth < 0 {
+		return false
+	}
+	var hooks []ssa.Value
+	for _, ci := range fieldCallsIn(g, field) {
+		if v, ok := ci.(ssa.Value); ok {
+			hooks = append(hooks, v)
+		} else {
+			return false // go / defer of the hook is not a call of the hook here
+		}
+	}
+	for _, b := range g.Blocks {
+		for _, in := range b.Instrs {
+			if c, ok := in.(*ssa.Call); ok {
+				if h := c.Call.StaticCallee(); h != nil && h != g && h.Pkg == g.Pkg && forwardsFieldCall(h, field, depth-1) {
+					hooks = append(hooks, c)
+				}
+			}
+		}
+	}
+	if len(hooks) == 0 {
+		return false
+	}
+	// a hook with results: they reach g's returns
+	for _, h := range hooks {
+		if tup, ok := h.Type().(*types.Tuple); ok && tup.Len() == 0 {
+			continue
+		}
+		reached := false
+		for _, rt := range core.Returns(g) {
+			for i := range rt.Results {
+				for _, leaf := range core.Leaves(core.ResolveResult(rt, i), core.SliceOpts{}) {
+					if leaf == h {
+						reached = true
+					}
+				}
+			}
+		}
+		if !reached {
+			return false
+		}
+	}
+	return true
+}
+
 func checkTxnCommit(c *Ctx) {
 	p, r := c.P, c.R
 	f := p.Func(statePkg, "(*txn).Commit")
@@ -399,6 +469,16 @@ func checkTxnCommit(c *Ctx) {
 				if mn == "Lock" && strings.Contains(g.String(), "sync.Mutex") {
 					if _, isDefer := in.(*ssa.Defer); !isDefer {
 						lock = in
+					}
+				}
+				// the hooks may be invoked through a small helper of the package
+				// (func (tx *txn) eventsForChanges(...) { return tx.prePublish(...) })
+				if g.Pkg != nil && core.IsConsul(g.Pkg.Pkg.Path()) {
+					if forwardsFieldCall(g, "prePublish", 2) {
+						pre = in
+					}
+					if forwardsFieldCall(g, "publish", 2) {
+						pub = in
 					}
 				}
 				if mn == "Unlock" && strings.Contains(g.String(), "sync.Mutex") {
